@@ -2,6 +2,7 @@
 package c09
 
 import (
+	"bytes"
 	"encoding/json"
 	"fmt"
 	"sort"
@@ -643,8 +644,40 @@ func policySets() *core.Family {
 			if fmt.Sprint(got) != fmt.Sprint(want) {
 				t.Fail("policyset-json-roundtrip", string(js), fmt.Sprint(want), fmt.Sprint(got))
 			}
+			// an encoding that was handed out stays what it was: change the set (replace the first
+			// policy by one of the opposite effect, add one, remove one) and encode again
+			keepJS, keepTxt := append([]byte{}, js...), string(ps.MarshalCedar())
+			txt := ps.MarshalCedar()
+			for step := 0; step < 3; step++ {
+				var q cedar.Policy
+				_ = q.UnmarshalCedar([]byte("forbid ( principal, action, resource );"))
+				switch step {
+				case 0:
+					if len(subs[i]) > 0 {
+						ps.Add(cedar.PolicyID(ids[subs[i][0]]), &q)
+					}
+				case 1:
+					ps.Add("zz-added", &q)
+				default:
+					ps.Remove("zz-added")
+					if len(subs[i]) > 0 {
+						ps.Remove(cedar.PolicyID(ids[subs[i][0]]))
+					}
+				}
+				js2, _ := ps.MarshalJSON()
+				txt2 := ps.MarshalCedar()
+				_, _ = js2, txt2
+				if !bytes.Equal(js, keepJS) {
+					t.Fail("policyset-json-bytes-changed-after-later-call", string(keepJS), "the bytes returned by MarshalJSON stay unchanged", string(js))
+					break
+				}
+				if string(txt) != keepTxt {
+					t.Fail("policyset-cedar-bytes-changed-after-later-call", keepTxt, "the bytes returned by MarshalCedar stay unchanged", string(txt))
+					break
+				}
+			}
 			t.Nontrivial()
-			t.Sample(string(js))
+			t.Sample(string(keepJS))
 		},
 	}
 }
